@@ -140,6 +140,14 @@ K_INPUT = dict(name="K-core::input", package="rustzx-core", features="full",
                assumptions=CORE_ASSUME + ["libm::sqrt stubbed while constructing the controller (AY pan gains only)"])
 
 PROPS = {
+    "C09": dict(
+        level="proof",
+        claim="Deductive proof (Verus, all T-states, all write sequences by per-call contracts): next_border_pixel is within 16 px (the statement's tolerance) of the beam position defined by 2 px/T, 224/228 T per line and first picture pixel at 14336/14362; set_border paints exactly the pixels the beam passed since the previous write with the previous colour and nothing else; new_frame completes the frame with the last colour and repaints everything when no write happened; set_border_color / the ULA arm of write_io make the reported border colour the low three bits of the written byte.",
+        note="Assumes host FrameBuffer contract (set_color changes exactly one in-range pixel; in-range is proved at every call). The per-pixel statement over a whole frame follows by induction over the per-call contracts (not a Verus lemma). Snapshot border field: covered with C13/C14.",
+        verus=["border", "ctl"],
+        kani=[K_MACHINE],
+        explanation="beam position function with tolerance; fill contracts over a ghost pixel map",
+    ),
     "C10": dict(
         level="proof",
         claim="Deductive proof (Verus, all images/block lengths/request parameters, loops by invariant): the real Tap block reader delivers exactly the bytes of the next TAP block (2-byte LE length + payload, 128-byte refill windows are ordinary cases of the representation invariant), and the real fast_load_tap leaves memory, IX, DE and carry equal to a spec function transcribing the ROM's LD-BYTES, performs the RET, selects exactly the next block, and leaves the CPU untouched when no block is left.",
